@@ -28,7 +28,7 @@ for c in cases:
             print("SELFTEST-STALE %s: mutant does not compile: %s" % (c["id"], b.stderr[:200]))
             missed.append(c["id"])
             continue
-        e2 = dict(env, GOVC_REPO=d, GOVC_VERIF=VERIF, GOVC_SELFTEST="1", GOVC_TIMEOUT="4")
+        e2 = dict(env, GOVC_REPO=d, GOVC_VERIF=VERIF, GOVC_SELFTEST="1", GOVC_TIMEOUT="4", GOVC_NORETRY="1")
         r = subprocess.run([os.path.join(VERIF, "bin", "govc"), "check", c["prop"], "quick"], env=e2, capture_output=True, text=True)
         viol = [l for l in r.stdout.splitlines() if l.startswith("VIOLATION")]
         if c.get("harmless"):
